@@ -5,6 +5,9 @@ import Mathlib.Analysis.Complex.ExponentialBounds
 import Wheatley.Props.C12
 import Wheatley.Model.World
 import Wheatley.Lemmas.Cli
+import Wheatley.Lemmas.Handlers
+import Wheatley.Lemmas.Ctl
+import Wheatley.Props.C11
 namespace Wheatley.C13
 open Generated
 
@@ -128,6 +131,526 @@ theorem expectation_used_once (r : Reg K) (wt : K → K) (reg : List (K × K × 
     intro x hx
     simp only [List.mem_filter] at hx
     simpa using hx.2
+
+
+/-! ### System level: with inertia 1 the line never moves -/
+
+section System
+
+/-- A regression rhythm with inertia 1 on the line `(s, i)`: every pending expectation is past the first row, the
+stage is positive and the gap not negative. -/
+structure RegDeaf (r : Reg K) (s : Time K) (i : K) : Prop where
+  inertia : r.preferredInertia = 1
+  start : r.start = s
+  interval : r.interval = i
+  stage : 0 < r.stage
+  gap : 0 ≤ r.gap
+  rows : ∀ p ∈ r.expected, 0 < p.2.1
+
+/-- The world of a touch under way whose rhythm is deaf: the real rhythm (no stub), the main thread past
+`wait_loaded`, no Look To handler asleep. -/
+structure Deaf (w : World K) (s : Time K) (i : K) : Prop where
+  stub : w.rh.stub = none
+  reg : RegDeaf w.rh.reg s i
+  notSpawn : ∀ it t, w.pc ≠ .waitLoaded it (some t)
+  awake : w.suspended = none
+
+theorem Deaf.of_eq {w w' : World K} {s : Time K} {i : K} (h : Deaf w s i) (h1 : w'.rh.stub = none)
+    (h2 : RegDeaf w'.rh.reg s i) (h3 : w'.pc = w.pc) (h4 : w'.suspended = w.suspended) : Deaf w' s i :=
+  { stub := h1, reg := h2, notSpawn := (by rw [h3]; exact h.notSpawn), awake := (by rw [h4]; exact h.awake) }
+
+/-- The events of a touch under way: anything but a Look To (which starts a new line), a setting (which may bend
+it or change the inertia) and the waking of a Look To handler. -/
+def Band : Ev → Prop
+  | .msg (.call c) => c ≠ Generated.call_LOOK_TO
+  | .msg (.setting _) => False
+  | .resume => False
+  | _ => True
+
+/-- Outputs that cannot move the line of a deaf rhythm. -/
+def quietOut : Out → Bool
+  | .rInit _ _ _ => false
+  | .rSetting _ _ => false
+  | .rExpect _ row _ _ => decide (0 < row)
+  | _ => true
+
+theorem withReg_reg (w : World K) (f : (List (K × K × K) → K × K) → Reg K) :
+    (∃ g, (w.withReg f).rh.reg = f g) ∧ (w.withReg f).rh.stub = w.rh.stub ∧ (w.withReg f).rh.wait = w.rh.wait ∧
+    (w.withReg f).pc = w.pc ∧ (w.withReg f).suspended = w.suspended ∧ (w.withReg f).bot = w.bot := by
+  unfold World.withReg
+  simp only []
+  exact ⟨⟨_, ite_proj (fun x : World K => x.rh.reg) _ _ _ _ rfl rfl⟩,
+    ite_proj (fun x : World K => x.rh.stub) _ _ _ _ rfl rfl, ite_proj (fun x : World K => x.rh.wait) _ _ _ _ rfl rfl,
+    ite_proj (fun x : World K => x.pc) _ _ _ _ rfl rfl, ite_proj (fun x : World K => x.suspended) _ _ _ _ rfl rfl,
+    ite_proj (fun x : World K => x.bot) _ _ _ _ rfl rfl⟩
+
+theorem blowTime_pos (r : Reg K) (row place : Nat) (hrow : 0 < row) (hst : 0 < r.stage) (hg : 0 ≤ r.gap) :
+    r.blowTime row place ≠ 0 := by
+  unfold Reg.blowTime
+  rw [C11.blow_index]
+  have h1 : (1 : K) ≤ ((row * (r.line (Num.ofNat 0)).stage + place : Nat) : K) := by
+    have : 1 ≤ row * r.stage + place := by
+      have := Nat.mul_pos hrow hst
+      omega
+    exact_mod_cast this
+  have h2 : (0 : K) ≤ ((row / 2 : Nat) : K) * (r.line (Num.ofNat 0)).gap := by
+    apply mul_nonneg
+    · exact Nat.cast_nonneg _
+    · exact hg
+  intro h
+  linarith
+
+/-- A human strike heard by a deaf rhythm: the line stays, and so does everything `RegDeaf` speaks of. -/
+theorem onBellRing_deaf (r : Reg K) (wt : K → K) (reg : List (K × K × K) → K × K) (bell : Nat) (hand : Bool) (t : K)
+    (s : Time K) (i : K) (h : RegDeaf r s i) : RegDeaf (r.onBellRing wt reg bell hand t) s i := by
+  obtain ⟨hi, hs, hiv, hst, hg, hrows⟩ := h
+  cases hq : r.lookupExpected bell hand with
+  | none =>
+    rw [unexpected_stroke_ignored r wt reg bell hand t hq]
+    exact ⟨hi, hs, hiv, hst, hg, hrows⟩
+  | some p =>
+    obtain ⟨row, place⟩ := p
+    have hrow : 0 < row := by
+      unfold Reg.lookupExpected at hq
+      split at hq
+      · rename_i q hf
+        injection hq with hq
+        have := hrows q (List.mem_of_find?_eq_some hf)
+        rw [hq] at this
+        exact this
+      · cases hq
+    obtain ⟨h1, h2⟩ := inertia1_strike r wt reg bell hand t row place hq hrow hi (blowTime_pos r row place hrow hst hg)
+    refine ⟨?_, h1.trans hs, h2.trans hiv, ?_, ?_, ?_⟩
+    all_goals
+      unfold Reg.onBellRing
+      simp only [hq]
+      have hb' : Num.eqb (r.blowTime row place) (Num.ofNat 0) = false := by
+        simpa using blowTime_pos r row place hrow hst hg
+      simp only [hb', Bool.false_eq_true, if_false]
+      generalize (ite (r.dataSet.length ≤ 1) _ _ : K) = wgt
+      obtain ⟨c1, _, c3, _⟩ := addDataPoint_cfg r reg row place t wgt
+      simp only [Reg.cfgOf, Prod.mk.injEq] at c1
+    · exact c1.1.trans hi
+    · show 0 < (r.addDataPoint reg row place t wgt).stage
+      rw [c1.2.2.2.2.2.2]; exact hst
+    · show 0 ≤ (r.addDataPoint reg row place t wgt).gap
+      rw [c1.2.2.2.1]; exact hg
+    · intro p hp
+      simp only [List.mem_filter] at hp
+      rw [c3] at hp
+      exact hrows p hp.1
+
+theorem withReg_deaf (w : World K) (f : (List (K × K × K) → K × K) → Reg K) (s : Time K) (i : K) (h : Deaf w s i)
+    (hf : ∀ g, RegDeaf (f g) s i) : Deaf (w.withReg f) s i := by
+  obtain ⟨⟨g, hg⟩, f2, _, f4, f5, _⟩ := withReg_reg w f
+  exact h.of_eq (f2.trans h.stub) (by rw [hg]; exact hf g) f4 f5
+
+theorem applyOut_deaf (wt : K → K) (ct : K) (w : World K) (o : Out) (s : Time K) (i : K)
+    (ho : quietOut o = true) (h : Deaf w s i) : Deaf (World.applyOut wt ct w o) s i := by
+  unfold World.applyOut
+  simp only []
+  cases o with
+  | rInit _ _ _ => simp [quietOut] at ho
+  | rSetting _ _ => simp [quietOut] at ho
+  | rExpect bell row place hand =>
+    have hrow : 0 < row := by simpa [quietOut] using ho
+    simp only [h.stub]
+    refine h.of_eq (by first | rfl | exact h.stub) ?_ rfl rfl
+    exact { inertia := h.reg.inertia, start := h.reg.start, interval := h.reg.interval, stage := h.reg.stage,
+            gap := h.reg.gap,
+            rows := (by
+              intro p hp
+              simp only [Reg.expect, List.mem_append, List.mem_filter, List.mem_singleton] at hp
+              rcases hp with hp | hp
+              · exact h.reg.rows p hp.1
+              · rw [hp]; exact hrow) }
+  | rBellRing bell hand =>
+    simp only [h.stub]
+    have h0 : Deaf ({ w with obs := { t := w.now, out := Out.rBellRing bell hand } :: w.obs } : World K) s i :=
+      h.of_eq h.stub h.reg rfl rfl
+    have h1 := withReg_deaf _ (fun regf => w.rh.reg.onBellRing wt regf bell hand
+      (w.now - ({ w with obs := { t := w.now, out := Out.rBellRing bell hand } :: w.obs } : World K).delay)) s i h0
+      (fun g => onBellRing_deaf w.rh.reg wt g bell hand _ s i h.reg)
+    exact h1.of_eq h1.stub h1.reg rfl rfl
+  | rReturn =>
+    simp only [h.stub]
+    exact h.of_eq (by first | rfl | exact h.stub)
+      { inertia := h.reg.inertia, start := h.reg.start, interval := h.reg.interval, stage := h.reg.stage,
+        gap := h.reg.gap, rows := h.reg.rows } rfl rfl
+  | ring _ _ => simp only [h.stub]; exact h.of_eq h.stub h.reg rfl rfl
+  | call _ => simp only [h.stub]; exact h.of_eq h.stub h.reg rfl rfl
+  | setIsRinging _ => simp only [h.stub]; exact h.of_eq h.stub h.reg rfl rfl
+  | rollCall _ => simp only [h.stub]; exact h.of_eq h.stub h.reg rfl rfl
+  | join => simp only [h.stub]; exact h.of_eq h.stub h.reg rfl rfl
+  | requestState => simp only [h.stub]; exact h.of_eq h.stub h.reg rfl rfl
+  | crash _ => simp only [h.stub]; exact h.of_eq h.stub h.reg rfl rfl
+
+theorem Deaf.of_reg {w w' : World K} {s : Time K} {i : K} (h : Deaf w s i) (h1 : w'.rh.stub = none)
+    (h2 : RegDeaf w'.rh.reg s i) (h3 : ∀ it t, w'.pc ≠ .waitLoaded it (some t)) (h4 : w'.suspended = none) :
+    Deaf w' s i :=
+  { stub := h1, reg := h2, notSpawn := h3, awake := h4 }
+
+theorem foldl_applyOut_deaf (wt : K → K) (ct : K) (s : Time K) (i : K) (outs : List Out) :
+    ∀ (w : World K), (∀ o ∈ outs, quietOut o = true) → Deaf w s i → Deaf (outs.foldl (World.applyOut wt ct) w) s i := by
+  induction outs with
+  | nil => intro w _ h; exact h
+  | cons o rest ih =>
+    intro w hq h
+    simp only [List.foldl_cons]
+    exact ih _ (fun o' ho' => hq o' (by simp [ho'])) (applyOut_deaf wt ct w o s i (hq o (by simp)) h)
+
+/-- The expectations `start_next_row` sets for the coming row carry its number, which is not 0 unless it is the
+first row of a touch. -/
+theorem startNextRow_expect_row (b : Bot) (x r p : Nat) (hd : Bool)
+    (h : Out.rExpect x r p hd ∈ (b.startNextRow false).2) : r = b.rowNumber + 1 := by
+  unfold Bot.startNextRow at h
+  split at h
+  · simp at h
+  · rename_i c started hstep
+    simp only [] at h
+    have hc : c.rowNumber = b.rowNumber + 1 := by
+      unfold ctlStep at hstep
+      split at hstep
+      · cases hstep
+      · injection hstep with e1 e2
+        subst e1
+        simp [ctlNext, nextRowNumber, Bot.ctlIn, Bot.ctl]
+    have ho4 : ∀ o ∈ (if (started && !b.checkNumberOfBells b.gen) = true then b.makeCalls ["Stand"] else []),
+        o ≠ Out.rExpect x r p hd := by
+      intro o ho
+      split at ho
+      · have := makeCalls_kind b _ o ho
+        intro e; subst e
+        unfold Bot.makeCalls at ho
+        split at ho
+        · simp at ho
+        · simp at ho
+      · simp at ho
+    generalize (if (started && !b.checkNumberOfBells b.gen) = true then b.makeCalls ["Stand"] else []) = o4 at h ho4
+    have hq : ((if started = true then b.snrPrep.resetGen else b.snrPrep).withCtl c).rowNumber = c.rowNumber := rfl
+    generalize (if started = true then b.snrPrep.resetGen else b.snrPrep).withCtl c = q at h hq
+    unfold Bot.snrFinish at h
+    split at h
+    · exact absurd rfl (ho4 _ h)
+    · have hctl := generateNextRow_ctl q
+      have hout : ∀ o ∈ (q.generateNextRow).2, o ≠ Out.rExpect x r p hd := by
+        intro o ho e
+        subst e
+        unfold Bot.generateNextRow at ho
+        split at ho
+        · simp at ho
+        · split at ho
+          · simp at ho
+          · split at ho <;> simp at ho
+      rcases hg : q.generateNextRow with ⟨b3, o9⟩
+      rw [hg] at hctl hout
+      simp only [hg] at h
+      have hb3 : b3.rowNumber = q.rowNumber := by
+        have := congrArg Ctl.rowNumber hctl
+        exact this
+      split at h
+      · simp only [List.mem_append] at h
+        rcases h with h | h
+        · exact absurd rfl (ho4 _ h)
+        · exact absurd rfl (hout _ h)
+      · simp only [List.mem_append] at h
+        rcases h with (h | h) | h
+        · exact absurd rfl (ho4 _ h)
+        · exact absurd rfl (hout _ h)
+        · unfold Bot.expectAll at h
+          simp only [List.mem_map] at h
+          obtain ⟨pr, _, hpr⟩ := h
+          injection hpr with _ e2 _ _
+          rw [← e2, hb3, hq, hc]
+
+theorem tickEnd_quiet (b : Bot) (bell : Nat) (uc : Bool) : ∀ o ∈ (b.tickEnd bell uc).2, quietOut o = true := by
+  intro o ho
+  cases o with
+  | rInit a b' c =>
+    rcases tickEnd_kinds b bell uc _ ho with h | h <;> simp [Out.snrKind, Out.isRing] at h
+  | rSetting k v =>
+    rcases tickEnd_kinds b bell uc _ ho with h | h <;> simp [Out.snrKind, Out.isRing] at h
+  | rExpect x r p hd =>
+    have : r = b.rowNumber + 1 := by
+      unfold Bot.tickEnd at ho
+      simp only [] at ho
+      have hn1 : ∀ o ∈ (if uc = true then [] else b.ringBell bell), o ≠ Out.rExpect x r p hd := by
+        intro o ho e; subst e
+        split at ho
+        · simp at ho
+        · unfold Bot.ringBell at ho
+          split at ho
+          · split at ho <;> simp at ho
+          · simp at ho
+      have hn2 : ∀ o ∈ (if (b.place == 0) = true then b.makeCalls b.calls else []), o ≠ Out.rExpect x r p hd := by
+        intro o ho e; subst e
+        split at ho
+        · unfold Bot.makeCalls at ho
+          split at ho <;> simp at ho
+        · simp at ho
+      split at ho
+      · simp only [List.mem_append] at ho
+        rcases ho with (ho | ho) | ho
+        · exact absurd rfl (hn1 _ ho)
+        · exact absurd rfl (hn2 _ ho)
+        · exact startNextRow_expect_row _ x r p hd ho
+      · simp only [List.mem_append] at ho
+        rcases ho with ho | ho
+        · exact absurd rfl (hn1 _ ho)
+        · exact absurd rfl (hn2 _ ho)
+    simp [quietOut, this]
+  | _ => rfl
+
+theorem onMsg_band (b : Bot) (m : Msg) (hB : Band (.msg m)) : ∀ o ∈ (b.onMsg m).2, quietOut o = true := by
+  intro o ho
+  cases m with
+  | bellRung st who =>
+    unfold Bot.onMsg at ho
+    simp only [] at ho
+    split at ho
+    · simp at ho
+    · split at ho
+      · simp at ho; subst ho; rfl
+      · simp at ho
+  | globalState st =>
+    unfold Bot.onMsg Bot.onSizeChange at ho
+    simp only [] at ho
+    split at ho
+    · simp at ho; subst ho; rfl
+    · simp at ho
+  | sizeChange n =>
+    unfold Bot.onMsg at ho
+    simp only [] at ho
+    split at ho
+    · unfold Bot.onSizeChange at ho
+      split at ho
+      · simp at ho; subst ho; rfl
+      · simp at ho
+    · simp at ho
+  | userEntered id name => simp [Bot.onMsg] at ho
+  | userList us => simp [Bot.onMsg] at ho
+  | assign bell user => simp [Bot.onMsg] at ho
+  | userLeft id => simp [Bot.onMsg] at ho
+  | setting kvs => exact absurd hB (by simp [Band])
+  | rowGen g =>
+    unfold Bot.onMsg at ho
+    simp only [] at ho
+    split at ho
+    · split at ho <;> simp at ho
+    · simp at ho
+  | stopTouch =>
+    unfold Bot.onMsg at ho
+    simp only [] at ho
+    split at ho
+    · simp at ho; rcases ho with rfl | rfl <;> rfl
+    · simp at ho
+  | call c =>
+    have hc : c ≠ Generated.call_LOOK_TO := hB
+    unfold Bot.onMsg Bot.onCall at ho
+    simp only [] at ho
+    have hne : (c == Generated.call_LOOK_TO) = false := by simpa using hc
+    simp only [hne, Bool.false_eq_true, if_false] at ho
+    split at ho
+    · unfold Bot.onGo at ho
+      split at ho
+      · have := makeCalls_kind _ _ o ho
+        cases o <;> simp [Out.snrKind] at this <;> first | rfl | (unfold Bot.makeCalls at ho; split at ho <;> simp at ho)
+      · simp at ho
+    · repeat' split at ho
+      all_goals simp at ho
+
+theorem lookToSuspends_band (w : World K) (m : Msg) (hB : Band (.msg m)) : w.lookToSuspends m = none := by
+  unfold World.lookToSuspends
+  cases m with
+  | call c =>
+    have hc : c ≠ Generated.call_LOOK_TO := hB
+    have hne : (c == Generated.call_LOOK_TO) = false := by simpa using hc
+    simp [hne]
+  | _ => rfl
+
+theorem finishTick_deaf (wt : K → K) (w : World K) (bell : Nat) (uc : Bool) (s : Time K) (i : K) (h : Deaf w s i) :
+    Deaf (w.finishTick wt bell uc).1 s i := by
+  unfold World.finishTick
+  simp only []
+  have h0 : Deaf ({ w with bot := (w.bot.tickEnd bell uc).1 } : World K) s i := h.of_eq h.stub h.reg rfl rfl
+  have h1 := foldl_applyOut_deaf wt w.now s i (w.bot.tickEnd bell uc).2 _ (tickEnd_quiet w.bot bell uc) h0
+  split
+  · exact h1.of_reg h1.stub h1.reg (by intro it t e; cases e) h1.awake
+  · exact h1.of_reg h1.stub h1.reg (by intro it t e; cases e) h1.awake
+
+theorem afterInner_deaf (wt : K → K) (w : World K) (bell : Nat) (uc hand : Bool) (d : K) (js : Bool) (s : Time K) (i : K)
+    (h : Deaf w s i) : Deaf (w.afterInner wt bell uc hand d js).1 s i := by
+  unfold World.afterInner
+  split
+  · split
+    · simp only []
+      split
+      · exact finishTick_deaf wt _ bell uc s i (h.of_eq h.stub h.reg rfl rfl)
+      · exact h.of_reg h.stub h.reg (by intro it t e; cases e) h.awake
+    · exact finishTick_deaf wt _ bell uc s i (h.of_eq h.stub h.reg rfl rfl)
+  · exact finishTick_deaf wt w bell uc s i h
+
+theorem beginWait_deaf (w : World K) (bell : Nat) (uc hand : Bool) (s : Time K) (i : K) (h : Deaf w s i) :
+    (w.beginWait bell uc hand).1.rh.stub = none ∧ RegDeaf (w.beginWait bell uc hand).1.rh.reg s i ∧
+    (w.beginWait bell uc hand).1.suspended = none ∧
+    (∀ it t, (w.beginWait bell uc hand).2.2 ≠ PC.waitLoaded it (some t)) := by
+  unfold World.beginWait
+  split
+  · exact ⟨h.stub, h.reg, h.awake, by intro it t e; cases e⟩
+  · simp only []
+    split <;> (split <;> exact ⟨h.stub, h.reg, h.awake, by intro it t e; cases e⟩)
+
+/-- One step of the main thread of a touch under way leaves a deaf rhythm's line alone. -/
+theorem mainStep_deaf (wt : K → K) (w : World K) (s : Time K) (i : K) (h : Deaf w s i) : Deaf (w.mainStep wt).1 s i := by
+  unfold World.mainStep
+  split
+  · exact h
+  · rename_i it lt hpc
+    cases lt with
+    | some t => exact absurd hpc (h.notSpawn it t)
+    | none =>
+      split
+      · split
+        · exact h.of_reg h.stub h.reg (by intro it t e; cases e) h.awake
+        · exact h.of_reg h.stub h.reg (by intro it t e; cases e) h.awake
+      · exact h.of_reg h.stub h.reg (by intro it t e; cases e) h.awake
+  · exact h.of_reg h.stub h.reg (by intro it t e; cases e) h.awake
+  · split
+    · exact h.of_reg h.stub h.reg (by intro it t e; cases e) h.awake
+    · apply foldl_applyOut_deaf
+      · intro o ho
+        split at ho
+        · simp at ho; rcases ho with rfl | rfl <;> rfl
+        · simp at ho
+      · exact h.of_reg h.stub h.reg (by intro it t e; cases e) h.awake
+  · split
+    · exact h.of_reg h.stub h.reg (by intro it t e; cases e) h.awake
+    · exact h.of_reg h.stub h.reg (by intro it t e; cases e) h.awake
+  · split
+    · split
+      · exact h.of_reg h.stub h.reg (by intro it t e; cases e) h.awake
+      · obtain ⟨b1, b2, b3, b4⟩ := beginWait_deaf w _ _ w.bot.hand s i h
+        exact h.of_reg b1 b2 b4 b3
+    · apply foldl_applyOut_deaf
+      · intro o ho
+        split at ho
+        · simp at ho; subst ho; rfl
+        · simp at ho
+      · exact h.of_reg h.stub h.reg (by intro it t e; cases e) h.awake
+  · split
+    · exact h
+    · exact afterInner_deaf wt w _ _ _ _ _ s i h
+  · apply afterInner_deaf
+    split
+    · exact h
+    · exact h.of_eq h.stub
+        { inertia := h.reg.inertia, start := h.reg.start, interval := h.reg.interval, stage := h.reg.stage,
+          gap := h.reg.gap, rows := h.reg.rows } rfl rfl
+  · exact afterInner_deaf wt w _ _ _ _ _ s i h
+  · exact h.of_reg h.stub h.reg (by intro it t e; cases e) h.awake
+
+/-- The delivery of any event of the class to a deaf rhythm leaves its line alone: a human strike at any time, an
+assignment, a call, a selection, Stop Touch, a size change. -/
+theorem deliver_deaf (wt : K → K) (w : World K) (e : Ev) (s : Time K) (i : K) (hB : Band e) (h : Deaf w s i) :
+    Deaf (World.deliver wt w e) s i := by
+  cases e with
+  | resume => exact absurd hB (by simp [Band])
+  | msg m =>
+    unfold World.deliver
+    simp only [lookToSuspends_band w m hB]
+    unfold World.deliverMsg
+    simp only []
+    have h0 : Deaf ({ w with bot := (w.bot.onMsg m).1 } : World K) s i := h.of_eq h.stub h.reg rfl rfl
+    have h1 := foldl_applyOut_deaf wt w.now s i (w.bot.onMsg m).2 _ (onMsg_band w.bot m hB) h0
+    split
+    · exact h1.of_eq h1.stub h1.reg rfl rfl
+    · exact h1
+
+theorem sleep_go_deaf (wt : K → K) (limit : K) (s : Time K) (i : K) :
+    ∀ (events : List (K × Ev)) (w : World K), (∀ ev ∈ events, Band ev.2) → Deaf w s i →
+      Deaf (World.sleep.go wt limit w events).1 s i ∧ (∀ ev ∈ (World.sleep.go wt limit w events).2, Band ev.2) := by
+  intro events
+  induction events with
+  | nil => intro w _ h; exact ⟨h, by intro ev hev; cases hev⟩
+  | cons ev rest ih =>
+    intro w hs h
+    obtain ⟨t, m⟩ := ev
+    unfold World.sleep.go
+    split
+    · apply ih _ (fun ev' h' => hs ev' (by simp [h']))
+      apply deliver_deaf wt _ m s i (hs (t, m) (by simp))
+      split
+      · exact h.of_eq h.stub h.reg rfl rfl
+      · exact h
+    · exact ⟨h, hs⟩
+
+theorem sleep_deaf (wt : K → K) (endTime : K) (w : World K) (d : K) (events : List (K × Ev)) (s : Time K) (i : K)
+    (hs : ∀ ev ∈ events, Band ev.2) (h : Deaf w s i) :
+    Deaf (World.sleep wt endTime w d events).1 s i ∧ (∀ ev ∈ (World.sleep wt endTime w d events).2.1, Band ev.2) := by
+  unfold World.sleep
+  simp only []
+  split
+  · exact sleep_go_deaf wt endTime s i events w hs h
+  · obtain ⟨h1, h2⟩ := sleep_go_deaf wt (w.now + d) s i events w hs h
+    exact ⟨h1.of_eq h1.stub h1.reg rfl rfl, h2⟩
+
+theorem run_deaf (wt : K → K) (endTime : K) (s : Time K) (i : K) :
+    ∀ (fuel : Nat) (w : World K) (events : List (K × Ev)), (∀ ev ∈ events, Band ev.2) → Deaf w s i →
+      Deaf (World.run wt endTime fuel w events).1 s i := by
+  intro fuel
+  induction fuel with
+  | zero => intro w events _ h; exact h
+  | succ fuel ih =>
+    intro w events hs h
+    unfold World.run
+    have hm := mainStep_deaf wt w s i h
+    split
+    · rename_i w1 heq; rw [heq] at hm; exact hm
+    · rename_i w1 heq; rw [heq] at hm; exact ih w1 events hs hm
+    · rename_i w1 d heq
+      rw [heq] at hm
+      obtain ⟨hsl, hsq⟩ := sleep_deaf wt endTime w1 d events s i hs hm
+      simp only []
+      split
+      · exact hsl
+      · exact ih _ _ hsq hsl
+
+/-- **With inertia 1 the band cannot move Wheatley's line.**  Take a touch under way whose rhythm has inertia 1 and
+has no expectation left from the first row (that is: the first whole pull is over).  Then in every state of every
+run - whatever the humans strike and whenever (early, late, rows ahead, bells that are not theirs), whoever takes or
+drops a rope, comes or goes, whatever is called (Go, Bob, Single, That's all, Rounds, Stand), selected or stopped,
+for as many steps as you like - the line Wheatley rings to is the line it was: same start, same interval.  Only a
+Look To (a new touch) or a setting (a new speed, another inertia) can change it; those are the events excluded. -/
+theorem line_never_moves (wt : K → K) (endTime : K) (fuel : Nat) (w : World K) (events : List (K × Ev))
+    (s : Time K) (i : K) (hs : ∀ ev ∈ events, Band ev.2) (h : Deaf w s i) :
+    (World.run wt endTime fuel w events).1.rh.reg.start = s ∧
+    (World.run wt endTime fuel w events).1.rh.reg.interval = i :=
+  let h' := run_deaf wt endTime s i fuel w events hs h
+  ⟨h'.reg.start, h'.reg.interval⟩
+
+/-- Non-vacuity: a rhythm in its second row on six bells, inertia 1, waiting for bell 2 - `Deaf`; a strike, an
+assignment, a Bob and Stop Touch are events of the class. -/
+example : ∃ w : World ℚ, Deaf w (.fin 3) (1 / 4) ∧
+    (∀ e ∈ [Ev.msg (.bellRung [true, false, true, true, true, true] 2), .msg (.assign 3 11), .msg (.call "Bob"),
+            .msg .stopTouch], Band e) := by
+  refine ⟨{ World.init (0 : ℚ) (Bot.init (Gen.init .placeholder none []) false false true none none)
+              { reg := { Reg.init (1 : ℚ) 180 1 4 15 0 with stage := 6, start := .fin 3, interval := 1 / 4,
+                                                             expected := [((2, true), (2, 1))] },
+                wait := none, stub := none } [] none with pc := .ringCheck }, ?_, ?_⟩
+  · exact { stub := rfl,
+            reg := { inertia := rfl, start := rfl, interval := rfl, stage := (by decide), gap := (by decide),
+                     rows := (by
+                       intro p hp
+                       have : p = ((2, true), (2, 1)) := by simpa [World.init] using hp
+                       subst this; decide) },
+            notSpawn := (by intro it t e; cases e),
+            awake := rfl }
+  · intro e he
+    simp only [List.mem_cons, List.mem_nil_iff, or_false] at he
+    rcases he with rfl | rfl | rfl | rfl <;> simp [Band, Generated.call_LOOK_TO]
+
+
+end System
 
 /-! ### The command line (`Model/Cli.lean`: `console_main`) -/
 
